@@ -1,11 +1,11 @@
 package main
 
 import (
-	"os"
-	"io/ioutil"
 	"bufio"
 	"bytes"
 	"fmt"
+	"io/ioutil"
+	"os"
 	"reflect"
 	"strconv"
 	"strings"
